@@ -59,9 +59,12 @@ Value builtin_str_substring(Value *args) {
     long long length = args[2].as.int_val;
     long long str_len = nl_cstr_length(str);
 
-    if (start < 0 || start > str_len) {
+    if (start < 0) {
         fprintf(stderr, "Error: str_substring start index out of bounds\n");
         return create_void();
+    }
+    if (start > str_len) {
+        return create_string("");   /* STDLIB: "I return an empty string if start is out of bounds" (as compiled code does) */
     }
 
     if (length < 0) {
@@ -70,11 +73,7 @@ Value builtin_str_substring(Value *args) {
     }
 
     if (start == str_len) {
-        if (length == 0) {
-            return create_string("");
-        }
-        fprintf(stderr, "Error: str_substring start index out of bounds\n");
-        return create_void();
+        return create_string("");
     }
 
     char *result = nl_cstr_substring(str, start, length);
